@@ -834,7 +834,10 @@ pub trait Parser<'src, I: Input<'src>, O, E: ParserExtra<'src, I> = extra::Defau
     where
         Self: Sized,
     {
-        Memoized { parser: self }
+        Memoized {
+            parser: self,
+            id: crate::combinator::next_memo_id(),
+        }
     }
 
     /// Transform all outputs of this parser to a predetermined value.
